@@ -13,6 +13,7 @@ unit.calls after the real correlate().
 from __future__ import annotations
 
 import itertools
+import re
 import time
 
 from mc import core, fordrun
@@ -318,7 +319,98 @@ def run_intrinsic(st: Stats, case):
         st.stratum(caller, 0)
 
 
+# ---- fixed source form: a statement continued over two or three lines, other lines in between ------------------------------
+FIXED_STMTS = [
+    # (name, declaration statements, executable statement, calls)
+    ("call-nested", [], "call usub2(ufn(1), ufn2(larr(2)))", {"usub2", "ufn", "ufn2"}),
+    ("assign", [], "r = ufn(larr(1)) + sum2(3) * marr(2)", {"ufn", "sum2"}),
+    ("decl-arrays", ["integer barr(10), carr(20), darr(3)"], "r = barr(1) + carr(2) + darr(3)", set()),
+    ("if-call", [], "if (ufn(1) .gt. 0) call usub(ufn2(2))", {"usub", "ufn", "ufn2"}),
+    ("print-literal", [], "print *, 'call usub0', ufn(1), 'sum2(2)'", {"ufn"}),
+]
+FIXED_FILLERS = {"none": [], "c": ["c     a comment line"], "C": ["C"], "star": ["* call usub0()"], "bang": ["!     r = sum2(1)"], "bang-indented": ["      ! my_abs(1)"], "blank": [""],
+                 "two": ["c first", "", "* second"], "doc": ["!! call usub0()"]}
+FIXED_MARKS = ["&", "1", "+", "$"]
+
+
+def fixed_breaks(stmt):
+    """token boundaries of a statement outside character literals."""
+    out, inq = [], False
+    for m in re.finditer(r"'[^']*'|\w+|\.\w+\.|\S", stmt):
+        out.append(m.start())
+    return [b for b in out if b > 0]
+
+
+def fixed_lines(stmt, breaks, filler, mark):
+    parts, last = [], 0
+    for b in breaks:
+        parts.append(stmt[last:b])
+        last = b
+    parts.append(stmt[last:])
+    L = ["      " + parts[0].rstrip()]
+    for p in parts[1:]:
+        L += FIXED_FILLERS[filler]
+        L.append("     " + mark + p.rstrip())
+    return L
+
+
+def run_fixed(st: Stats, case):
+    _, sname, which, breaks, filler, mark = case
+    _, decls, stmt, want = next(x for x in FIXED_STMTS if x[0] == sname)
+    dl = []
+    for d in decls:
+        dl += fixed_lines(d, breaks if which == "decl" else [], filler, mark)
+    xl = fixed_lines(stmt, breaks if which == "exec" else [], filler, mark)
+    src = ["      subroutine caller()", "      use cm", "      implicit none", "      integer larr(5), i, r, x"] + dl + xl + ["      end subroutine caller"]
+    files = {"src/m.f90": f"module cm\n  implicit none\n{LIB}contains\n{LIBPROCS}end module cm\n", "src/caller.f": "\n".join(src) + "\n"}
+    r = fordrun.build_fast(files, dict(display=["public", "private", "protected"], proc_internals=True))
+    st.evaluations += 1
+    st.transitions += 1
+    stratum = f"fixed-form/{sname}"
+    inp = dict(case=list(case), files=files)
+    feats = dict(caller="fixed-form", stmts=sname, filler=filler, mark=mark, nbreaks=len(breaks), which=which)
+    st.nontrivial.add(core.digest(list(case)))
+    if r.error is not None or "ERROR in file" in r.log or "Error parsing" in r.log:
+        st.violation("ford-failed", stratum, feats, inp, repr(r.error) + r.log[-300:], "parses and correlates")
+        st.stratum("fixed-form", 1)
+        return
+    unit = [p for p in r.project.procedures if p.name == "caller"]
+    if not unit:
+        st.violation("caller-missing", stratum, feats, inp, "no caller", "calling unit present")
+        st.stratum("fixed-form", 1)
+        return
+    got_list = [callname(c) for c in unit[0].calls]
+    got = set(got_list)
+    st.states.add(core.digest([sname, which, breaks, filler, sorted(got_list)]))
+    bad = False
+    extra, missing = sorted(got - want), sorted(want - got)
+    if extra:
+        bad = True
+        st.violation("spurious-call", stratum, dict(feats, names=",".join(extra)), inp, sorted(got), sorted(want))
+    if missing:
+        bad = True
+        st.violation("missing-call", stratum, dict(feats, names=",".join(missing)), inp, sorted(got), sorted(want))
+    if sorted(n for n in got if got_list.count(n) > 1):
+        bad = True
+        st.violation("recorded-more-than-once", stratum, feats, inp, got_list, sorted(want))
+    st.stratum("fixed-form", 1 if bad else 0)
+
+
+def gen_fixed_cases(tier):
+    for (sname, decls, stmt, _) in FIXED_STMTS:
+        for which, text in ([("decl", decls[0])] if decls else []) + [("exec", stmt)]:
+            bs = fixed_breaks(text)
+            for filler in FIXED_FILLERS:
+                for mark in FIXED_MARKS if tier == "thorough" else ["&", "1"]:
+                    for b in bs:
+                        yield ("fixed", sname, which, (b,), filler, mark)
+                    pairs = list(itertools.combinations(bs, 2))
+                    for pr in pairs if tier == "thorough" else pairs[::7]:
+                        yield ("fixed", sname, which, pr, filler, mark)
+
+
 def gen_cases(tier):
+    yield from gen_fixed_cases(tier)
     for caller in ("subroutine", "program") if tier == "quick" else CALLERS:
         for n in INTRINSIC_FUNCTIONS:
             yield ("intrinsic", caller, n, False)
@@ -361,6 +453,8 @@ def work(chunk):
     for case in chunk:
         if case[0] == "intrinsic":
             run_intrinsic(st, case)
+        elif case[0] == "fixed":
+            run_fixed(st, case)
         else:
             run_case(st, case)
     return st
@@ -374,6 +468,11 @@ def replay(path):
     st = Stats()
     if rec["input"]["case"][0] == "intrinsic":
         run_intrinsic(st, tuple(rec["input"]["case"]))
+    elif rec["input"]["case"][0] == "fixed":
+        c = rec["input"]["case"]
+        run_fixed(st, (c[0], c[1], c[2], tuple(c[3]), c[4], c[5]))
+        print(rec["input"]["files"]["src/caller.f"])
+        rec["input"]["body"] = []
     else:
         caller, stmts = rec["input"]["case"]
         run_case(st, (caller, tuple(tuple(s) for s in stmts)))
@@ -404,6 +503,7 @@ def main(tier, replay_path=None):
         PROP, tier, "model_checking", total, t0,
         rule=(f"{len(STMTS)} statement forms x {len(ATOMS)} expression atoms in either expression slot x 4 calling-unit kinds; nested expressions "
               f"(5 wrappers x atoms) in every statement form" + ("; both slots varied jointly; all ordered pairs of statement forms x 3 expressions" if tier == "thorough" else "")
+              + "; fixed source form: 5 statements x every token boundary (and pairs of them) as continuation break x 9 kinds of lines in between x continuation marks"
               + ". distinct_nontrivial = distinct (unit, statement sequence, expressions); states = distinct observed call lists"),
         assumptions=[
             "user procedures whose name equals an intrinsic or keyword are not generated (FORD's documented filter)",
